@@ -3,7 +3,8 @@ From Coq Require Import NArith List Bool Arith.
 From Verif Require Import Sx Str Tok.
 From Verif.Model Require Import CharRef TokBase Ser.
 From Verif.Spec Require Import TokSpec.
-From Verif.Proofs Require Import C08.
+From Verif.Gen Require Import Consts.
+From Verif.Proofs Require Import C08 SpecTac C08tag.
 Import ListNotations.
 Local Open Scope N_scope.
 
@@ -44,13 +45,58 @@ Theorem c08_single_quoted_value : forall lt v rest e n a0 an av sc tm o cd b,
             = Some (mk_tk afterAttributeValueState rest (CTag e n (a0 ++ [(an, av ++ map nulfix v)]) sc) tm o cd b).
 Proof. exact sq_value_roundtrip. Qed.
 
+(* START TAGS.  Whatever the options (quoting mode always/spec/legacy, quote character, best-quote choice,
+   minimised booleans, trailing solidus with or without space, escape_lt_in_attrs): the text Ser writes for a
+   start tag -- name: a letter, then anything but whitespace, "/", ">", NUL; attribute names: non-empty, nothing
+   of whitespace, "/", ">", "=", NUL; ANY values, quoted or not -- is read by S_tok from the data state as exactly
+   one start tag: that name and those attribute names ASCII-lower-cased, in order, with those values (U+0000 as
+   U+FFFD; a minimised boolean attribute reads as empty; of attributes whose written names coincide the first
+   wins), self-closing iff Ser wrote the solidus; and S_tok is back in the data state right behind the ">". *)
+Theorem c08_start_tag_roundtrip : forall o name (a : attrs) rest cu t out cd,
+  qc_ok o -> tname_ok name = true -> forallb (fun x => aname_ok (snd (fst x))) a = true ->
+  let sc := mem_str name voidElements && solidus o in
+  exists j, sp_iter j (mk_tk dataState (ser_start o name a ++ rest) cu t out cd false)
+            = Some (mk_tk dataState rest (CTag false (lower_str name) (map (rd_attr o name) a) sc) t
+                      (OStart (lower_str name) (first_wins [] (map (rd_attr o name) a)) sc :: out) cd false).
+Proof. exact start_tag_roundtrip. Qed.
+
+(* ... and none is dropped when the lower-cased attribute names are distinct *)
+Theorem c08_distinct_names_all_kept : forall (l : pairs) seen,
+  (forall x, In x l -> mem_str (fst x) seen = false) -> NoDup (map fst l) -> first_wins seen l = l.
+Proof. exact first_wins_nodup. Qed.
+
+Theorem c08_end_tag_roundtrip : forall name rest cu t out cd, tname_ok name = true ->
+  exists j, sp_iter j (mk_tk dataState ([60; 47] ++ name ++ [62] ++ rest) cu t out cd false)
+            = Some (mk_tk dataState rest (CTag true (lower_str name) [] false) t (OEnd (lower_str name) [] false :: out) cd false).
+Proof. exact end_tag_roundtrip. Qed.
+
+(* WHOLE STREAMS of text, inter-element whitespace, start/empty tags and end tags in which no element is
+   written in raw-text mode: if Ser accepts the stream (with or without reporting errors), S_tok reads its
+   output back as exactly the stream ([rd_tok]), token by token, ending in the data state. *)
+Theorem c08_stream_roundtrip : forall o, qc_ok o -> forall ts txt errs rest cu tm out cd,
+  Forall (safe_tok o) ts -> ser_loop o false ts = Some (txt, errs) ->
+  exists j cu', sp_iter j (mk_tk dataState (txt ++ rest) cu tm out cd false)
+                = Some (mk_tk dataState rest cu' tm (rev (flat_map (rd_tok o) ts) ++ out) cd false).
+Proof. exact stream_roundtrip. Qed.
+
+(* non-vacuity of the stream theorem: <a href=x&amp;y hidden="">1 &lt; 2</a> with the default options *)
+Example c08_stream_example :
+  let o := mk_sopts 2 34 true true false true false false true in
+  let ts := [TStart None [97] [((None, [104;114;101;102]), [120;38;121]); ((None, [104;105;100;100;101;110]), [])];
+             TChars [49;32;60;32;50]; TEnd None [97]] in
+  qc_ok o /\ Forall (safe_tok o) ts /\
+  ser_loop o false ts = Some ([60;97;32;104;114;101;102;61;120;38;97;109;112;59;121;32;104;105;100;100;101;110;61;34;34;62;
+                               49;32;38;108;116;59;32;50;60;47;97;62], []).
+Proof. split; [left; reflexivity|]. split; [repeat constructor|]. vm_compute. reflexivity. Qed.
+
 (* non-vacuity *)
 Example c08_example :
   escape [49;60;50;38;34] = [49;38;108;116;59;50;38;97;109;112;59;34] /\
   ser_attr_value (mk_sopts 2 34 true true false true false false true) [97;34;38] = [39;97;34;38;97;109;112;59;39].
 Proof. split; vm_compute; reflexivity. Qed.
 
-(* PARTIAL.  Proved: the two lexical contexts through which text could become markup.  Not proved: unquoted
-   values, tag and attribute names, comments, doctypes, raw-text elements and the lift to whole streams
-   (errors = [] -> retok (Ser ts) = ts); these are decided on every run by re-tokenizing the real serializer's
-   output with S_tok (extracted) for generated trees x options -- a test, with seven listed findings. *)
+(* PARTIAL.  Proved: text, quoted and unquoted values, tag and attribute names, start and end tags, and the lift
+   to whole streams of these without raw-text elements.  Not proved: comments, doctypes, raw-text elements
+   (script, style, ...: written unescaped by design) and entity tokens; these are decided on every run by
+   re-tokenizing the real serializer's output with S_tok (extracted) for generated trees x options -- a test,
+   with seven listed findings.  Ser itself is a hand model tied to the code by the correspondence run. *)
